@@ -207,11 +207,11 @@ def collect(prog, funcs):
     for f in funcs:
         for n in f.nodes:
             k = n['k']
-            if k == 'CXXOperatorCallExpr' and n.get('op') == '[]' and n['callee'].get('classq') in ('std::vector', 'std::basic_string'):
+            if k == 'CXXOperatorCallExpr' and n.get('op') == '[]' and n['callee'].get('classq') in ('std::vector', 'std::basic_string', 'std::array'):
                 sites.append(Site(f, n['id'], 'sub', n['args'][0], n['args'][1]))
             elif k == 'ArraySubscriptExpr':
                 sites.append(Site(f, n['id'], 'ptr', n['ch'][0], n['ch'][1]))
-            elif k == 'CXXMemberCallExpr' and n['callee'].get('classq') in ('std::vector', 'std::basic_string') and n['callee']['name'] in ('front', 'back', 'pop_back'):
+            elif k == 'CXXMemberCallExpr' and n['callee'].get('classq') in ('std::vector', 'std::basic_string', 'std::array') and n['callee']['name'] in ('front', 'back', 'pop_back'):
                 sites.append(Site(f, n['id'], n['callee']['name'], n['obj'], None))
             elif k == 'UnaryOperator' and n['op'] == '*' and f.nodes[f.strip(n['ch'][0], 'all')]['k'] != 'CXXThisExpr':
                 sites.append(Site(f, n['id'], 'deref', n['ch'][0], None))
